@@ -314,7 +314,7 @@ fn gen_send_line(wd: &World, rng: &mut Rng) -> Option<Action> {
 			cltv_adj = -(j as i32 + 1);
 		}
 	}
-	Some(Action::Send { from, to: cur, paths: vec![path], amts: vec![amt], fee_delta_msat: fee_delta, cltv_delta_adj: cltv_adj })
+	Some(Action::Send { from, to: cur, paths: vec![path], amts: vec![amt], fee_delta_msat: fee_delta, cltv_delta_adj: cltv_adj, flaw: 0 })
 }
 
 fn gen_send(wd: &World, rng: &mut Rng) -> Option<Action> {
@@ -380,7 +380,9 @@ fn gen_send(wd: &World, rng: &mut Rng) -> Option<Action> {
 	} else {
 		(0, 0)
 	};
-	Some(Action::Send { from, to, paths, amts, fee_delta_msat: fee_delta, cltv_delta_adj: cltv_adj })
+	// C04: in profile `receive` a third of the payments carry a flaw the recipient must refuse
+	let flaw = if wd.cfg.profile == "receive" && rng.chance(1, 3) { 1 + rng.below(4) as u8 } else { 0 };
+	Some(Action::Send { from, to, paths, amts, fee_delta_msat: fee_delta, cltv_delta_adj: cltv_adj, flaw })
 }
 
 /// Draws the next action. Returns None when nothing is enabled.
